@@ -89,3 +89,9 @@ Print Assumptions c05_index_op_is_by_name.
 Print Assumptions c05_index_op_rejects_context.
 Print Assumptions c05_index_op_out_of_range.
 Print Assumptions c05_no_operation_no_change.
+
+(* THE TIE OF THE MODEL'S CONSTANT TABLES TO THE SOURCE: Gen/TablesSrc.v is regenerated from /repo by tools/tables2coq.py on every run *)
+From ZV Require Import Timestamp Render Convert TablesSrc TablesTie.
+Theorem c05_precedence_order_as_in_source : default_prec = src_pep440_based.
+Proof. exact default_prec_as_source. Qed.
+Print Assumptions c05_precedence_order_as_in_source.
